@@ -1035,12 +1035,12 @@ func (w *c05World) record(kind, coqOp, human string, sessionUser int, ok bool, e
 					Case: append([]string{}, w.human...), Observed: map[string]interface{}{"subject": w.names[c.sub], "level": c.level, "iat": c.iatM, "verified_at": at}})
 			}
 		}
-		if kind != "Login" && sessionUser != 0 && c.sub != sessionUser {
+		if !strings.HasPrefix(kind, "Login") && sessionUser != 0 && c.sub != sessionUser {
 			w.res.hit(verifHit{Key: "C05:subject-changed:" + kind, Oracle: "a request of one user's session never yields a cookie for another user",
 				Kind: "history", What: fmt.Sprintf("%s in a session of %s emitted a cookie for %s", kind, w.names[sessionUser], w.names[c.sub]), Case: append([]string{}, w.human...)})
 		}
 	}
-	if w.expiredSession && w.cert == 0 && kind != "Login" && (len(em) > 0 || (ok && kind != "Logout")) {
+	if w.expiredSession && w.cert == 0 && !strings.HasPrefix(kind, "Login") && (len(em) > 0 || (ok && kind != "Logout")) {
 		w.res.hit(verifHit{Key: "C05:expired:cookie:" + kind, Oracle: "an expired session cookie never works", Kind: "history",
 			What: fmt.Sprintf("%s succeeded although the auth cookie checkAuth looks at (the last one) is past its exp claim", kind), Case: append([]string{}, w.human...)})
 	}
@@ -1106,7 +1106,14 @@ func (w *c05World) serve(req *http.Request) *httptest.ResponseRecorder {
 }
 
 // ---- the operations
-func (w *c05World) login(u int, ok bool) {
+func (w *c05World) login(u int, ok bool) { w.loginWith(u, ok, nil) }
+
+// a password login whose request also carries auth_cookie values (cs: positions in the list of everything the
+// server issued, as for every other request; an index that names nothing issued is a value that does not verify).
+// None of them is a credential of the login: the oracles of `record` (every factor of the emitted cookie proved
+// for its user, and not before the cookie's iat) are applied to the Set-Cookie of the answer under the kind
+// "LoginWithCookie".
+func (w *c05World) loginWith(u int, ok bool, cs []int) {
 	pw := w.names[u] + "pw"
 	if !ok {
 		pw = "wrong"
@@ -1114,7 +1121,43 @@ func (w *c05World) login(u int, ok bool) {
 	f := url.Values{}
 	f.Set("username", w.names[u])
 	f.Set("password", pw)
-	rr := w.serve(verifNewRequest("POST", "/api/v0/login", f))
+	req := verifNewRequest("POST", "/api/v0/login", f)
+	kind, human := "Login", fmt.Sprintf("Login(%s,%v)", w.names[u], ok)
+	if len(cs) > 0 {
+		kind = "LoginWithCookie"
+		var what []string
+		for _, i := range cs {
+			if i >= 0 && i < len(w.cookies) {
+				c := w.cookies[i]
+				req.AddCookie(&http.Cookie{Name: authCookieName, Value: c.val})
+				whose, state := "own", "valid"
+				if c.sub != u {
+					whose = "other-user"
+				}
+				if c.expM <= w.nowM {
+					state = "expired"
+				}
+				level := "password-only"
+				if c.level&^(1<<c05PW) != 0 {
+					level = "with-further-factors"
+				}
+				w.res.bump("login-attached:" + whose + ":" + state + ":" + level)
+				what = append(what, fmt.Sprintf("%d=%s/%s cookie of %s level %#x", i, whose, state, w.names[c.sub], c.level))
+			} else {
+				req.AddCookie(&http.Cookie{Name: authCookieName, Value: "eyJhbGciOiJFUzI1NiIsInR5cCI6IkpXVCJ9.eyJzdWIiOiJqdW5rIn0.anVuaw"})
+				w.res.bump("login-attached:junk")
+				what = append(what, fmt.Sprintf("%d=junk", i))
+			}
+		}
+		if len(cs) > 1 {
+			w.res.bump("login-attached:several")
+		}
+		human = fmt.Sprintf("Login(%s,%v)[attached auth_cookie: %s]", w.names[u], ok, strings.Join(what, ", "))
+	}
+	if w.cert != 0 {
+		w.attachMask(req, nil, true) // the client certificate of the request modifier (no credential of the login either)
+	}
+	rr := w.serve(req)
 	em := w.emitted(rr)
 	if ok {
 		w.prove(u, c05PW)
@@ -1122,7 +1165,7 @@ func (w *c05World) login(u int, ok bool) {
 			w.oktaAt[u] = w.nowM // a new state token, cached for c05OktaLife seconds
 		}
 	}
-	w.record("Login", fmt.Sprintf("Login %d %s", u, coqBool(ok)), fmt.Sprintf("Login(%s,%v)", w.names[u], ok), 0, rr.Code < 400, em)
+	w.record(kind, fmt.Sprintf("Login %d %s %s", u, coqBool(ok), c05CoqList(cs)), human, 0, rr.Code < 400, em)
 }
 
 func (w *c05World) logout(cs []int) {
@@ -1636,6 +1679,10 @@ func (w *c05World) alphabet() []func() {
 		func() { w.from(1, func() { w.cached(func() { w.totp([]int{0}, 1, w.modelStep()) }) }) },
 		func() { w.from(2, func() { w.totp([]int{0}, 1, w.modelStep()) }) },
 		func() { w.from(3, func() { w.finish("U2fFinish", []int{0}, 1, false, cur(1)) }) },
+		// a password login that carries the newest session cookie of the history (whatever it holds by then): a
+		// minute later, and after every session so far has expired
+		func() { w.tick(60); w.loginWith(1, true, []int{last()}) },
+		func() { w.tick(57600); w.loginWith(1, true, []int{last()}) },
 	}
 }
 
@@ -1840,7 +1887,11 @@ func (w *c05World) randomOpPlain(rng *mrand.Rand) {
 	}
 	switch rng.Intn(20) {
 	case 0, 19:
-		w.login(user(), rng.Intn(5) != 0)
+		if rng.Intn(3) == 0 { // a login that carries session cookies
+			w.loginWith(user(), rng.Intn(5) != 0, pickCs())
+		} else {
+			w.login(user(), rng.Intn(5) != 0)
+		}
 	case 1:
 		w.logout(pickCs())
 	case 2:
@@ -2213,7 +2264,106 @@ func (w *c05World) targeted() []func() {
 		},
 		w.cachedScenario,
 		w.addressScenario,
+		w.loginAttachedScenario,
+		w.pushAcrossSessionsScenario,
 	}
+}
+
+// An approval is given for ONE push transaction: a second session of the same user (a later login, another
+// vip_push_cookie) that asks for a push while the first transaction is still within its lifetime - approved and
+// polled, approved and not yet polled, or pending - gets a transaction of its own, and polling it before the
+// owner approved THAT one raises nothing.
+func (w *c05World) pushAcrossSessionsScenario() {
+	second := func() int {
+		w.tick(5)
+		w.login(1, true)
+		return len(w.cookies) - 1
+	}
+	// approved and consumed by the first session's poll
+	w.pushStart([]int{0}, 0)
+	w.approve(w.vcTx[0])
+	w.poll([]int{0}, 0)
+	n := second()
+	w.pushStart([]int{n}, 1)
+	w.poll([]int{n}, 1)
+	w.poll([]int{n}, 0) // the first transaction's cookie value in the second session
+	w.approve(w.vcTx[1])
+	w.poll([]int{n}, 1)
+	// approved, not yet polled by the session that asked
+	w.tick(121)
+	w.pushStart([]int{0}, 0)
+	w.approve(w.vcTx[0])
+	n = second()
+	w.pushStart([]int{n}, 1)
+	w.poll([]int{n}, 1)
+	w.poll([]int{0}, 0)
+	// pending, and the other user's session in between
+	w.tick(121)
+	w.pushStart([]int{0}, 0)
+	n = second()
+	w.pushStart([]int{1}, 1) // bob
+	w.poll([]int{n}, 1)
+	w.approve(w.vcTx[0])
+	w.poll([]int{n}, 1)
+	w.poll([]int{1}, 1)
+}
+
+// A login request may carry auth_cookie values: the product (whose cookie: own / another user's / junk) x (valid /
+// expired) x (level: password only, +TOTP, +TOTP+U2F, +VIP ...), singly and in pairs, with the right and the wrong
+// password, with a client certificate.  The new session is the password's: nothing attached counts.
+func (w *c05World) loginAttachedScenario() {
+	cur := func(u int) int {
+		if id, ok := w.curChal[u]; ok {
+			return id
+		}
+		return 9999
+	}
+	const junk = 9999
+	// sessions at several levels (0: alice password, 1: bob password)
+	w.totp([]int{0}, 1, w.modelStep()) // alice password+TOTP
+	w.u2fBegin([]int{len(w.cookies) - 1})
+	w.finish("U2fFinish", []int{len(w.cookies) - 1}, 1, !w.devs[1].u2f, cur(1)) // ... +hardware token
+	w.vipOtp([]int{0}, 1, true)                                                   // alice password+VIP
+	w.vipOtp([]int{1}, 2, true)                                                   // bob password+VIP
+	old := len(w.cookies)
+	lastOf := func(u int) int { // the richest old session of u
+		best := -1
+		for i := 0; i < old; i++ {
+			if w.cookies[i].sub == u && (best < 0 || w.cookies[i].level >= w.cookies[best].level) {
+				best = i
+			}
+		}
+		return best
+	}
+	a2, b2 := lastOf(1), lastOf(2)
+	round := func() {
+		for i := 0; i < old; i++ { // every level, own and the other user's
+			w.loginWith(1, true, []int{i})
+		}
+		w.loginWith(2, true, []int{b2})
+		w.loginWith(2, true, []int{a2})
+		w.loginWith(1, true, []int{junk})
+		w.loginWith(1, true, []int{a2, b2})
+		w.loginWith(1, true, []int{b2, a2})
+		w.loginWith(1, true, []int{a2, junk})
+		w.loginWith(1, true, []int{junk, a2})
+		w.loginWith(1, true, []int{0, a2})
+		w.loginWith(1, false, []int{a2}) // the wrong password: the cookie is no credential of the login
+		w.with(1, false, func() { w.loginWith(1, true, []int{a2}) })
+		w.with(2, false, func() { w.loginWith(1, true, []int{a2}) })
+		w.cached(func() { w.loginWith(1, true, []int{a2}) })
+	}
+	w.tick(60)
+	round() // the attached sessions are still valid
+	// what the new session is good for: a second factor is still to be verified
+	w.showTok([]int{len(w.cookies) - 1}, c05TokenLife)
+	w.tick(57600)
+	round() // ... and now every one of them has expired (the logins of the first round too)
+	fresh := len(w.cookies) - 1
+	w.loginWith(1, true, []int{fresh, a2}) // a valid password session and the expired two-factor one, both orders
+	w.loginWith(1, true, []int{a2, fresh})
+	w.showTok([]int{len(w.cookies) - 1}, c05TokenLife)
+	w.vipOtp([]int{a2}, 1, true) // the expired session itself authenticates nothing
 }
 
 // Where a request comes from decides nothing: one-time values are spent for every address once they were accepted
@@ -2351,7 +2501,7 @@ const c05OktaTargeted = 16
 
 func TestVerif_C05(t *testing.T) {
 	verifWriteConsts(t)
-	res := newVerifResult("exhaustive depth-3 histories over 13 core letters and depth-2 over all 32 letters of the alphabet, depth 3 over the 8 letters of the Okta alphabet under the Okta configuration (thorough: depth 3 over 20 letters, depth 4 over the first eight and over the Okta letters); requests optionally authenticated by a verified client certificate, with failing profile writes, or served from the cache database, and coming from eight client addresses (RemoteAddr: hosts, ports, IPv6; X-Forwarded-For / X-Real-IP / Forwarded; a local proxy — one random request in four, three letters, one scenario), after the prefix [login user 1; login user 2] + seeded random histories of length <= 12 (thorough <= 20) over all operations + 19 targeted scenarios, under 32 configurations (two plain, a family of user-name pairs in which one name matches the other as a pattern x row orders, two with the Okta authenticator); cookies attached singly and in pairs in both orders; non-trivial = the history contains at least one level upgrade; distinct by (operations, outputs, addresses)")
+	res := newVerifResult("exhaustive depth-3 histories over 13 core letters and depth-2 over all 34 letters of the alphabet (two of them password logins that carry the newest session cookie, valid or expired), depth 3 over the 8 letters of the Okta alphabet under the Okta configuration (thorough: depth 3 over 20 letters, depth 4 over the first eight and over the Okta letters); requests optionally authenticated by a verified client certificate, with failing profile writes, or served from the cache database, and coming from eight client addresses (RemoteAddr: hosts, ports, IPv6; X-Forwarded-For / X-Real-IP / Forwarded; a local proxy — one random request in four, three letters, one scenario), after the prefix [login user 1; login user 2] + seeded random histories of length <= 12 (thorough <= 20) over all operations + 21 targeted scenarios (one of them a second session of the same user asking for a push within the lifetime of an approved / pending transaction of the first, one of them the product of password logins with attached auth_cookie values: own / another user's / junk x valid / expired x levels, singly and in pairs), under 32 configurations (two plain, a family of user-name pairs in which one name matches the other as a pattern x row orders, two with the Okta authenticator); cookies attached singly and in pairs in both orders; non-trivial = the history contains at least one level upgrade; distinct by (operations, outputs, addresses)")
 	vip := &c05Vip{}
 	vip.reset()
 	// lib/vip builds a new http.Transport for every call and never closes its idle connection: without
